@@ -74,6 +74,7 @@ TEMPLATES = {
     "locate": ["LOCATE {1}, {2}"], "color": ["COLOR {1}, {2}"], "width": ["WIDTH {1}, {2}"], "view-print": ["VIEW PRINT {1} TO {2}"], "exit": ["EXIT {1}"],
     "defint": ["DEFINT {1}-{2}"], "member-assign": ["{1}.{2} = 1"], "elem-assign": ["{1}({2}) = 1"], "elem-member-assign": ["{1}({2}).X = 1"],
     "elem-print": ["PRINT {1}({2})"], "elem-member-print": ["PRINT {1}({2}).X"], "two-subscripts": ["N% = {1}({2}, {2})"], "swap-assign": ["{1} = {1} + {2}"],
+    "field-two": ['OPEN "R.DAT" FOR RANDOM AS #1 LEN = 8', "FIELD #1, {1} AS F$", "FIELD #1, {2} AS G$, 4 AS H$", "GET #1, 1", "PRINT F$; G$; H$"],
     "fixed-member": ["Rec.S = {1}", "PRINT Rec.S; LEN(Rec.S)"], "fixed-var": ["DIM Fx AS STRING * 3", "Fx = {1}", "PRINT Fx; LEN(Fx)"],
     "fixed-lset": ['OPEN "R.DAT" FOR RANDOM AS #1 LEN = 4', "FIELD #1, 4 AS F$", "LSET F$ = {1}", "PRINT F$; LEN(F$)"],
     "using-field": ['PRINT USING "\\ \\"; {1}'], "using-bang": ['PRINT USING "!"; {1}'], "fixed-input": ["INPUT Rec.S", "PRINT Rec.S; {1}"],
@@ -92,7 +93,7 @@ NATURAL = {
     "assign": ("N%", "1"), "let": ("N%", "1"), "print2": ("N%", "S$"), "print-using": ('"##"', "1"), "call1": ("MySub", "1"), "call-kw": ("MySub", "1"),
     "dim-arr": ("Qq", "1"), "dim-as": ("Qq", "Integer"), "redim": ("Qq", "1"), "const": ("Qq", "1"), "if-line": ("1", "Cls"), "for-bounds": ("1", "1"),
     "select": ("N%", "1"), "case-range": ("0", "1"), "input2": ("N%", "S$"), "field": ("8", "F$"), "lset": ("F$", '"s"'), "name": ('"T.TXT"', '"s"'),
-    "poke": ("Varptr(N%)", "1"), "locate": ("1", "1"), "color": ("1", "0"), "width": ("80", "25"), "view-print": ("1", "25"), "defint": ("A", "Z"),
+    "poke": ("Varptr(N%)", "1"), "field-two": ("8", "8"), "locate": ("1", "1"), "color": ("1", "0"), "width": ("80", "25"), "view-print": ("1", "25"), "defint": ("A", "Z"),
     "member-assign": ("Rec", "X"), "elem-assign": ("Arr", "1"), "elem-member-assign": ("RecArr", "1"), "elem-print": ("Arr", "1"),
     "elem-member-print": ("RecArr", "1"), "two-subscripts": ("Arr", "1"), "swap-assign": ("N%", "1"), "nested": ("1", "1"),
     "redim-as": ("Qq", "Integer"), "redim-shared": ("Qq", "1"), "dim-shared-arr": ("Qq", "1"), "dim-arr-as": ("Qq", "Integer"), "dim-two": ("Qq", "Pq%"),
